@@ -1,10 +1,22 @@
 # bin/check configuration of property C16 (a single dict expression)
-{'harness': 'c16',
- 'props': 'Props/C16.v',
+{'assumptions': ['the fault is a non-EOF error that persists (the same error forever, or one error once and '
+                 'another one forever)'],
+ 'harness': 'c16',
  'models': ['Model/Chunk.v', 'Model/Fault.v'],
- 'trusted': ['stdlib decoders (encoding/csv|json|xml) return the error of their input reader after a prefix '
-             'of the fault-free tokens (error transparency)',
-             'classification tables are extracted from the seven IsContinuableError bodies '
-             '(Gen/Continuable.v)'],
- 'assumptions': ['the fault is a non-EOF error that persists (the same error forever, or one error once and '
-                 'another one forever)']}
+ 'props': 'Props/C16.v',
+ 'trusted': ['PROVED (Coq, closed): classification level (every extracted wrapping site of every reader '
+             'gives a class the ingester does not call continuable; any non-continuable reader error is '
+             'terminal and sticky); byte level for all chunkings and fault tails (line reader and delimiter '
+             'scanner never swallow a fault; fault_prefix_agrees against the untruncated input; per-layer '
+             'bounds); format level for the old fixed-length reader, both envelope kinds, over all line '
+             'sequences (by_rows: fatal within lines+1 Reads; by_header_footer: known finding F27 as an iff)',
+             'EXTRACTED from /repo on every run: Gen/Continuable.v (the seven IsContinuableError bodies + '
+             'the ingester) and Gen/FaultWrap.v (per reader and site: which constructor wraps a failed read '
+             '- fatal type / latched r.readErr / io.EOF / other; whether fixedlength tests the end of input '
+             'with err == io.EOF; what a line matching no header returns)',
+             'COMPARED ONLY (check_case on real runs + the Go oracle): the reader logic above the byte level '
+             'of csv, csv2, fixedlength2, EDI, JSON, XML (hierarchy reader, header skipping, xpath '
+             'filtering); the old fixed-length reader model (fl_rows_run / hf_run) is both proved and '
+             'compared with the real reader on every run',
+             'stdlib decoders (encoding/csv|json|xml) return the error of their input reader after a prefix '
+             'of the fault-free tokens (error transparency): assumed']}
